@@ -379,7 +379,7 @@ pub fn prop() -> Prop<Case> {
     Prop {
         id: "C04",
         level: "fault_enumeration",
-        rule: "scenario as C03 (small blocks/caps so several combined-block flushes happen) generated by proptest, in 40% of the cases with an empty file already sitting at the path of one of the blocks the backup is going to write; inner domain enumerated per scenario: every operation of the logged storage trace of the backup (reads, lists, metadata, writes, create_dir; quick thins to <=60 evenly spaced) x {not-found, already-exists, permission-denied, other} as a single injected failure, plus generated multi-fault plans (1-7 failing positions, a quarter of them dense with 8-39). Oracle per plan: no panic; every file that existed before is byte-identical afterwards; every File entry the independent decoder finds in any band reassembles to exactly that path's bytes in the tree that band was made from (never dangling, never another file's); if the backup reports complete success (Ok, no monitor error, stats.errors==0) the band is closed and restores exactly; a closed band that does not restore exactly implies an error was reported. Non-trivial = the failing operation is a write/create_dir under d/ or the band directory, or a read of an index hunk, or a plan with >=2 faults; counted per (scenario, plan), distinct by construction. Fixed scale probe per run: a backup writing 10 015 index hunks with a fault on the creation of the second index sub-directory and on its first hunk (thorough: three more); since round 6 a quarter of the cases start with one block of an earlier version already deleted (entries of earlier versions naming it are not judged, everything the new version records is), and injected errors carry an io::Error cause like the local transport's",
+        rule: "scenario as C03 (small blocks/caps so several combined-block flushes happen) generated by proptest, in 40% of the cases with an empty file already sitting at the path of one of the blocks the backup is going to write; inner domain enumerated per scenario: every operation of the logged storage trace of the backup (reads, lists, metadata, writes, create_dir; quick thins to <=60 evenly spaced) x {not-found, already-exists, permission-denied, other} as a single injected failure, plus generated multi-fault plans (1-7 failing positions, a quarter of them dense with 8-39). Oracle per plan: no panic; every file that existed before is byte-identical afterwards; every File entry the independent decoder finds in any band reassembles to exactly that path's bytes in the tree that band was made from (never dangling, never another file's); if the backup reports complete success (Ok, no monitor error, stats.errors==0) the band is closed and restores exactly; a closed band that does not restore exactly implies an error was reported. Non-trivial = the failing operation is a write/create_dir under d/ or the band directory, or a read of an index hunk, or a plan with >=2 faults; counted per (scenario, plan), distinct by construction. Fixed scale probe per run: a backup writing 10 015 index hunks with a fault on the creation of the second index sub-directory and on its first hunk (thorough: three more); since round 6 a quarter of the cases start with one block of an earlier version already deleted (entries of earlier versions naming it are not judged, everything the new version records is), and injected errors carry an io::Error cause like the local transport's; since round 8 two probes with MiB-sized data, every block write failing once: eight files of 600 KiB, pairwise identical, combined into 2 MiB blocks; and small files before and after a file of 65 MiB + 1 with default options",
         assumptions: &[
             "an injected failure has no side effect on the directory (the operation is not attempted)",
             "faults are injected at transport-operation granularity via the verif_hooks interceptor",
